@@ -19,7 +19,9 @@ PROPS = {
 }
 # used by lib/storage.py for C05 (a merge pass that FAILS also leaves every key reading as before); not in
 # PROPS, which says which properties this module's check() decides
-EXTRA = {"C05": dict(mode="fault", trace=["C05_FailedMergeKeeps"])}
+EXTRA = {"C05": dict(mode="fault", trace=["C05_FailedMergeKeeps"]),
+         # C12 in histories with a kill: the aftermath of every crash probe ends with a restart from a copy without hint files
+         "C12": dict(mode="crash", trace=["C12_AfterCrash"])}
 
 TRACE_TMPL = """SPECIFICATION Spec
 INVARIANTS
@@ -32,12 +34,16 @@ CHECK_DEADLOCK FALSE
 
 def model_check(v, prop, tier):
     q = tier == "quick"
+    nb = 3 if q else 4
     if prop == "C03":
-        plans = [("MC_Seq + Crash (<=2 crashes), ops<=3, 16 configs", ["TypeOK", "CrashSafe"], 3 if q else 4, "MCConfigs", 2, ())]
+        plans = [("MC_Seq + Crash (<=2 crashes), ops<=3, 16 configs", ["TypeOK", "CrashSafe"], 3 if q else 4, "MCConfigs", 2, ()),
+                 (f"MC_Seq big value (9000 B: two-call appends, two-piece merge copies) + Crash, ops<={nb}, 9 configs", ["TypeOK", "CrashSafe"], nb, "MCConfigsBig", 1, ())]
     elif prop == "C09":
-        plans = [("MC_Seq sync=always, every per-file cut, ops<=4", ["TypeOK", "PowerLossSafe"], 4 if q else 5, "MCConfigsSync", 0, ())]
+        plans = [("MC_Seq sync=always, every per-file cut, ops<=4", ["TypeOK", "PowerLossSafe"], 4 if q else 5, "MCConfigsSync", 0, ()),
+                 (f"MC_Seq big value (9000 B) sync=always, every per-file cut, ops<={nb}", ["TypeOK", "PowerLossSafe"], nb, "MCConfigsBigSync", 0, ())]
     elif prop == "C14":
-        plans = [("MC_Seq AppendOnly/IdsOnlyGrow/SizeBound with crashes, ops<=3", ["TypeOK", "SizeBound"], 3 if q else 4, "MCConfigs", 1, ("AppendOnly",))]
+        plans = [("MC_Seq AppendOnly/IdsOnlyGrow/SizeBound with crashes, ops<=3", ["TypeOK", "SizeBound"], 3 if q else 4, "MCConfigs", 1, ("AppendOnly",)),
+                 (f"MC_Seq big value (9000 B) AppendOnly/SizeBound with a crash, ops<={nb}", ["TypeOK", "SizeBound"], nb, "MCConfigsBig", 1, ("AppendOnly",))]
     else:
         # C20: the fault model (one transient failure at any system-call step, the code's error paths)
         cfgtext = f"""SPECIFICATION FSpec
@@ -62,6 +68,20 @@ CHECK_DEADLOCK FALSE
         v.add_tlc("BitcaskFault.tla: one failure at every system-call step, ops<=4, 18 configs (3 max file sizes x sync none/always x 3 thresholds)", r)
         if not r.ok:
             raise ToolError(f"specification check failed for C20: {r.violated or r.eval_error}\n{r.out[-3000:]}")
+        # entries above the write buffer: the failing call can be the first or the second write(2) of an append
+        # (header retained by the BufWriter / nothing retained) and any piece of a merge copy
+        big = cfgtext.replace(f"Vals = {storage.V2}", f"Vals = {storage.VBIG}").replace("MCConfigsFault", "MCConfigsFaultBig").replace("MaxOps = 4", f"MaxOps = {nb}")
+        r = tlc("MC_Fault.tla", write_cfg(f"mc_faultbig_{os.getpid()}.cfg", big), workers=NCPU, timeout=3000, xmx="16g", metatag=f"mc-faultbig-{os.getpid()}")
+        v.add_tlc(f"BitcaskFault.tla big value (9000 B): one failure at every system-call step, ops<={nb}, 12 configs", r)
+        if not r.ok:
+            raise ToolError(f"specification check failed for C20 (big value): {r.violated or r.eval_error}\n{r.out[-3000:]}")
+        if not q:
+            # beyond the property's quantifier (one fault per run): two transient failures at normal steps
+            two = cfgtext.replace("MaxFaults = 1", "MaxFaults = 2").replace("MaxOps = 4", "MaxOps = 3")
+            r = tlc("MC_Fault.tla", write_cfg(f"mc_fault2_{os.getpid()}.cfg", two), workers=NCPU, timeout=3000, xmx="16g", metatag=f"mc-fault2-{os.getpid()}")
+            v.add_tlc("BitcaskFault.tla: TWO failures (second one at any normal step), ops<=3, 18 configs", r)
+            if not r.ok:
+                raise ToolError(f"specification check failed for C20 (two faults): {r.violated or r.eval_error}\n{r.out[-3000:]}")
         plans = []
     if prop == "C09":
         # power loss after a failed call: BitcaskFault.tla under sync=always, every per-file cut in every state
@@ -96,7 +116,8 @@ CHECK_DEADLOCK FALSE
             raise ToolError(f"BitcaskFault.tla with the leftover forgotten should violate FaultPowerLossSafe, got {r.violated or 'no violation'}")
         v.cov.setdefault("deviations_rejected_by_the_model", []).append("LeftoverForgotten -> FaultPowerLossSafe")
     for label, invs, maxops, configs, crashes, props in plans:
-        cfg = storage.mc_cfg(f"mc_{prop}_{maxops}.cfg", invs, maxops, configs, crashes=crashes, props=props)
+        cfg = storage.mc_cfg(f"mc_{prop}_{maxops}_{configs}.cfg", invs, maxops, configs, crashes=crashes, props=props,
+                             vals=storage.VBIG if "Big" in configs else storage.V2)
         r = tlc("MC_Seq.tla", cfg, workers=NCPU, timeout=3000, xmx="16g", metatag=f"mc-{prop}-{os.getpid()}")
         v.add_tlc(label, r)
         if not r.ok:
